@@ -48,7 +48,7 @@ T = {
     "C14": ("exploration", "All 666 version modules (path vs class constants; every class defined in or reachable from the module) and all 186 families (contiguity, monotone flexibility, key constant and unique, request = response versions, pinned API table).",
             "Trusted: pinned API table. Finite configuration space enumerated completely.",
             "exhaustive enumeration of the finite configuration space (all modules and families)", "4/C14"),
-    "C15": ("exploration", "Static dataclass options of all 1633 classes; for every k<=1 (thorough: k<=2) instance, its decoded copy and what the decoder returns from a short-reading raw source: mutation attempts on every field, equality/hash along every deviation edge, copy/deepcopy/replace/pickle.",
+    "C15": ("exploration", "Static dataclass options of all 1633 classes; for every k<=1 (thorough: k<=2) instance, its decoded copy, what the decoder returns from a short-reading raw source and the decoded copy of one 2 MiB-payload instance per string/bytes/records slot: mutation attempts on every field, equality/hash along every deviation edge, copy/deepcopy/replace/pickle.",
             "Trusted: Python's dataclass/pickle machinery; instances from the E4 alphabets.",
             "bounded-exhaustive enumeration of instances x mutation/copy operations", "4/C15"),
     "C19": ("model_checking", "Histories: every operation sequence up to depth 2/3 (+ all depth-3/4 ending in a use) over a 57-letter alphabet on a colliding class set, each rebuilt from cleared caches, plus abstract-state BFS to a fixpoint; stream failure at every call index for every class; 2-thread schedules of cold/warm creation and use at source-line granularity with preemption bound 1/2 (thorough: opcode granularity in scratch-buffer frames).",
